@@ -773,7 +773,7 @@ MUST_REACH = ["outage_before_next_operation", "short_burst_after_outage", "no_fa
               "ntag_authenticated", "ntag_protected_with_password",
               "ulev1_authenticated", "ulev1_protected_with_password",
               "lite_authenticated", "lites_authenticated"]
-BOUNDS = {"quick": "one burst (length 1..3, kind timeout/transmission/protocol, command or response lost) at every command position of read/write/presence/format/protect/dump on one small world per tag type; after a read/write that ended in TagCommandError or None the operation is repeated fault-free through the same tag object (Type 1/2/3) and must give the fault-free result",
+BOUNDS = {"quick": "one burst (length 1..3, kind timeout/transmission/protocol, command or response lost) at every command position of read/write/presence/format/protect/dump on one small world per tag type; after a read/write that ended in TagCommandError or None the operation is repeated fault-free through the same tag object (Type 1/2/3) and must give the fault-free result; added later: Type 4 worlds with FWI 10/11, a Type 3 card with the slowest PMm parameters, an operation that exhausted its attempts followed by a burst of 1..2 in the next operation of the same tag object (Type 1/2/3)",
           "thorough": "burst lengths 1..4"}
 LITE_BOUNDS = "; FeliCa Lite / Lite-S vendor classes (env.tt3lite_sim, NDEF formatted, concrete key and contents): quick = authenticated Lite read/write x all kinds, authenticated Lite-S read x all kinds and write x timeout, unauthenticated Lite read/write and Lite-S read for some kinds; thorough = read/reread/write/present x all kinds on all four (unauthenticated, authenticated fault-free before the burst)"
 VENDOR_BOUNDS = {
